@@ -12,3 +12,19 @@ Definition table3 : list (string * (val -> val)) :=
        vopt (fun k => VZ (Z.of_nat k))
          (find_cst (map (fun c => {| c_start := as_Z (arg 0 c); c_end := as_Z (arg 1 c); c_kind := as_str (arg 2 c); c_name := as_opt_str (arg 3 c) |}) (as_list (arg 0 v)))
                    (as_Z (arg 1 v)) (as_str (arg 2 v)) (as_opt_str (arg 3 v)))) ]%string.
+Definition edit_val (e : edit) : val :=
+  match e with
+  | ENop => VL [VS (s2l "nop")]
+  | EInsertAfter v => VL [VS (s2l "insert"); VS v]
+  | EDeleteAfter => VL [VS (s2l "delete")]
+  | EReplaceAfter v => VL [VS (s2l "replace"); VS v]
+  end.
+Definition table4 : list (string * (val -> val)) :=
+  [ ("doc_edit", fun v => edit_val (doc_edit (as_str (arg 0 v)) (as_str (arg 1 v)) (as_bool (arg 2 v))));   (* [new_doc, after_value, after_is_docstr] *)
+    ("apply_edit", fun v =>   (* [edit as above, i, nodes] -> nodes *)
+       let e := arg 0 v in
+       let tag := as_str (arg 0 e) in
+       let ed := if str_eqb tag (s2l "insert") then EInsertAfter (as_str (arg 1 e))
+                 else if str_eqb tag (s2l "delete") then EDeleteAfter
+                 else if str_eqb tag (s2l "replace") then EReplaceAfter (as_str (arg 1 e)) else ENop in
+       VL (map VS (apply_edit ed (Z.to_nat (as_Z (arg 1 v))) (map as_str (as_list (arg 2 v)))))) ]%string.
